@@ -1,7 +1,8 @@
 """Bounded validation for C14: (1) the A-STR axioms against CPython, (2) the REAL
 TaggedSeries.encode and the REAL WhisperDatabase._getFilesystemPath (its source text executed with
 a stub `whisper`) against `confined`, (3) injectivity on well-formed untagged names -- all over
-every string of a small alphabet up to a length bound."""
+every string of a small alphabet up to a length bound, (4) determinism: a forked process that asks
+for the two TAG_HASH_FILENAMES values in the opposite order gets the same paths."""
 import argparse
 import ast
 import itertools
@@ -48,14 +49,40 @@ def structured(max_comps):
       yield 'a.b;t=v;u=' + path
 
 
+def history_sample():
+  out = []
+  for n in range(0, 4):
+    for t in itertools.product(ALPHA, repeat=n):
+      out.append(''.join(t))
+  out += list(structured(3))
+  return out
+
+
+def reversed_history_paths(d):
+  """paths computed in another process that asks for the flags in the other order (True first):
+  the mapping must not depend on what was asked before"""
+  W = whisper_db_class()
+  res = {}
+  for s in history_sample():
+    for flag in (True, False):
+      db = W()
+      db.data_dir = d
+      db.tag_hash_filenames = flag
+      res[(s, flag)] = db._getFilesystemPath(s, flag)
+  return res
+
+
 def main():
   ap = argparse.ArgumentParser()
   ap.add_argument('--comps', type=int, default=6)
   ap.add_argument('--len', type=int, default=5)
   ap.add_argument('--seed', default='0')
   a = ap.parse_args()
-  W = whisper_db_class()
   d = '/srv/carbon-c14/whisper'
+  import multiprocessing
+  with multiprocessing.get_context('fork').Pool(1) as pool:     # forked before this process encodes anything
+    other = pool.apply(reversed_history_paths, (d,))
+  W = whisper_db_class()
   evals = 0
   failures = []
   seen = {}
@@ -108,6 +135,17 @@ def main():
       if not confined(d, p) and len(failures) < 5:
         failures.append({'id': 'path-escapes-data-dir', 'metric': name, 'hash_only': flag, 'path': p, 'normpath': os.path.normpath(p)})
   distinct += n_struct // 2
+  # determinism: same answers as the process that asked in the opposite order
+  for sname in history_sample():
+    for flag in (False, True):
+      db = W()
+      db.data_dir = d
+      db.tag_hash_filenames = flag
+      pth = db._getFilesystemPath(sname, flag)
+      evals += 1
+      if pth != other[(sname, flag)] and not any(f['id'] == 'path-depends-on-history' for f in failures):
+        failures.append({'id': 'path-depends-on-history', 'metric': sname, 'hash_only': flag, 'path_here': pth,
+                         'path_when_asked_in_the_other_order': other[(sname, flag)]})
   print('BOUNDED-RESULT ' + json.dumps({'evaluations': evals, 'distinct_cases': distinct, 'failures': failures[:5],
                                         'alphabet': ALPHA, 'max_len': a.len, 'max_path_components': a.comps, 'exhaustive': True}))
 
